@@ -34,8 +34,8 @@ META = {
  'C09': ('bounded-exhaustive: every walk and every string up to length n on small graph universes x options',
          'clean strands returned untouched; candidates sorted, duplicate-free and check-consistent on both return paths',
          'orders 1-3'),
- 'C10': ('bounded-exhaustive termination check under deterministic loop budgets: all ACGT strings up to length n x graphs x every start x options',
-         'a budget hit is a non-termination verdict with the exact input',
+ 'C10': ('bounded-exhaustive termination check under deterministic loop budgets: all ACGT strings up to length n x graphs x every start x options, plus complete families of long strands with m = 0..130 isolated errors (many-candidate and single-candidate sites)',
+         'a budget hit is a non-termination verdict with the exact input; the long families drive the bounded candidate product',
          'budget is a fixed polynomial with >= 10x slack over the observed maximum'),
  'C11': ('exhaustive: all 2^16 order-2 masks for the valid graph; filter menu x k for vertex discovery incl. user-defined filters',
          'mask[i] <=> filter verdict on the i-th k-mer, arcs exactly between marked shift-neighbours',
@@ -61,12 +61,12 @@ META = {
  'C18': ('exhaustive: k=1..6 x seed menu; all 24 rows x 15 live patterns x all digits on the real encode/decode',
          'the induced digit map is decided completely; reproducibility across interleaved seeds',
          'seeds from a finite menu'),
- 'C19': ('reachable-state search (BFS with state hashing) over arc-removal call sequences on generated graphs with the invariant evaluated on every transition',
-         'pure flag sequences to the first raising call and mixed sequences with bounded flag changes',
-         'orders 2-3 (4 thorough)'),
- 'C20': ('explicit-state search over call histories on shared arguments (depth 2 exhaustive, depth 3 bounded) with fresh-process reference and state hashing',
-         'closure argument: every operation maps the initial state hash to itself, validated at depth 2-3',
-         'alphabet of ~30 operations on three argument sets'),
+ 'C19': ('reachable-state search (state hashing on accessor bytes) over arc-removal call sequences on generated graphs; the invariant - one existing arc removed, maximum of an independent reference score, both views equal - is evaluated on every transition',
+         'pure flag sequences to the first raising call and mixed sequences with <= 2 changes of (flag combination, successor-list order); the library score function is additionally compared with the reference on every pre-state',
+         'orders 2-3; mixed sequences capped per graph (cap reported); reference score re-implements the pinned scoring formula and agreed with it on every explored state'),
+ 'C20': ('explicit-state search over call histories on shared arguments: depth 1-2 exhaustive over 54 operations, depth 3 over core operations, plus histories with a caller-overwritten result, an in-place arc removal (and its undoing) and a second argument set of the same order in between; every call compared with a fresh-process reference',
+         'result-based: after every call the result equals that of the same operation alone in a fresh process on equal arguments and every argument is bit-for-bit unchanged; verbose on/off compared',
+         '8 argument sets of order 1-4; a change of module state alone is recorded, not reported (a correct memo keeps the statement true)'),
 }
 
 NOT_BUILT = 'check not built yet in this session (design in DESIGN.md); will be claimed once mc/props/%s.py exists'
